@@ -97,7 +97,7 @@ def make_subject(kind, seed):
         return BasisFunctionalData(b, C)
 
     if kind == "dense1d":
-        return dense1(5, 7)
+        return dense1(5, (6, 7, 9)[seed % 3])
     if kind == "dense2d":
         return dense2(3, 4, 5)
     if kind == "irregular":
@@ -119,7 +119,9 @@ PS2 = dict(n_segments=np.array([2, 2]), degree=np.array([1, 1]))
 ARGS = {
     ("dense1d", "center"): [{}, {"method_smoothing": "LP"}, {"mean": "@mean"}],
     ("dense1d", "mean"): [{}, {"method_smoothing": "PS"}, {"method_smoothing": "LP", "bandwidth": 0.5}],
-    ("dense1d", "covariance"): [{}, {"method_smoothing": "LP", "bandwidth": 0.5}, {"center": False}],
+    ("dense1d", "covariance"): [{}, {"method_smoothing": "LP", "bandwidth": 0.5}, {"center": False},
+                                {"method_smoothing": "LP", "kwargs_center": {"kernel_name": "epanechnikov"}},
+                                {"method_smoothing": "PS", "kwargs_center": {"penalty": 2.0}}],
     ("dense1d", "inner_product"): [{}, {"noise_variance": 0.25}, {"method_integration": "simpson"}],
     ("dense1d", "noise_variance"): [{}, {"order": 3}],
     ("dense1d", "norm"): [{}, {"squared": True}, {"use_argvals_stand": True}],
@@ -141,7 +143,7 @@ ARGS = {
     ("dense2d", "concatenate"): [{"@static": ["@self", "@other"]}],
     ("irregular", "center"): [{}, {"bandwidth": 0.5}],
     ("irregular", "mean"): [{}, {"method_smoothing": "PS"}],
-    ("irregular", "covariance"): [{}, {"smooth": False}],
+    ("irregular", "covariance"): [{}, {"smooth": False}, {"kwargs_center": {"bandwidth": 0.5}}],
     ("irregular", "inner_product"): [{}, {"noise_variance": 0.25}],
     ("irregular", "norm"): [{}, {"squared": True}],
     ("irregular", "rescale"): [{}, {"weights": 2.0}],
@@ -164,6 +166,55 @@ ARGS = {
     ("multivariate", "count"): [{"@pos": ["@comp0"]}],
     ("multivariate", "index"): [{"@pos": ["@comp0"]}],
 }
+
+
+def _fdapy_modules():
+    import sys
+
+    return [m for n, m in sorted(sys.modules.items()) if n.startswith("FDApy") and m is not None]
+
+
+def function_state():
+    """State that lives in functions and modules rather than in objects: the default values
+    (`__defaults__`, `__kwdefaults__`) of every function / method defined in FDApy and the mutable
+    module-level containers.  No analysis call may change it (mutable default arguments,
+    module-level caches)."""
+    out = {}
+    for mod in _fdapy_modules():
+        for name, obj in list(vars(mod).items()):
+            if getattr(obj, "__module__", None) != mod.__name__ and not isinstance(obj, (dict, list, set)):
+                continue
+            if inspect.isfunction(obj):
+                funcs = [(name, obj)]
+            elif inspect.isclass(obj):
+                funcs = []
+                for n2, o2 in list(vars(obj).items()):
+                    f = o2.__func__ if isinstance(o2, (staticmethod, classmethod)) else (o2.fget if isinstance(o2, property) else o2)
+                    if inspect.isfunction(f):
+                        funcs.append((f"{name}.{n2}", f))
+            elif isinstance(obj, (dict, list, set)) and not name.startswith("__"):
+                out[f"{mod.__name__}:{name}"] = U.deep(sorted(obj, key=repr) if isinstance(obj, set) else obj)
+                continue
+            else:
+                continue
+            for fn, f in funcs:
+                d, k = f.__defaults__, f.__kwdefaults__
+                if d and any(isinstance(x, (dict, list, set, np.ndarray)) for x in d):
+                    out[f"{mod.__name__}:{fn}.__defaults__"] = U.deep([x if isinstance(x, (dict, list, set, np.ndarray)) else None for x in d])
+                if k and any(isinstance(x, (dict, list, set, np.ndarray)) for x in k.values()):
+                    out[f"{mod.__name__}:{fn}.__kwdefaults__"] = U.deep({a: x for a, x in k.items() if isinstance(x, (dict, list, set, np.ndarray))})
+    return out
+
+
+_FUNCTION_STATE0 = None
+
+
+def _function_state_violation(entry, before):
+    """Compare with the state recorded before the calls of this case."""
+    d = U.diff_paths(before, function_state())
+    if d:
+        return [_viol("repeatable", entry, f"a call changed state held by functions / modules (mutable default arguments, module-level containers) at {d[:3]}: later calls in the same process no longer behave as in a fresh one", ["function_state"])]
+    return []
 
 
 def public_methods(cls):
@@ -227,6 +278,11 @@ def _resolve(kind, seed, subject, spec):
                 return subject.data[0]
         if isinstance(v, np.ndarray):
             v = v.copy()
+            extra.append(("option", v))
+        elif isinstance(v, (dict, list)):
+            import copy
+
+            v = copy.deepcopy(v)  # the user's own dictionary / list: an input like any other
             extra.append(("option", v))
         return v
 
@@ -293,7 +349,7 @@ def gen_estimator_cases(rng: Rng, tier):
     for s in range(n):
         seed = rng.randint(0, 10**6)
         for est in ("ufpca_cov", "ufpca_inpro", "ufpca_2d", "ufpca_cov_big", "ufpca_inpro_big", "ufpca_pace", "ufpca_pace_irregular",
-                    "mfpca_cov", "mfpca_inpro", "mfpca_pace", "fcptpa", "psplines1", "psplines2", "localpoly"):
+                    "ufpca_cov_norm", "ufpca_inpro_norm", "mfpca_cov_norm", "mfpca_inpro_norm", "mfpca_cov", "mfpca_inpro", "mfpca_pace", "fcptpa", "psplines1", "psplines2", "localpoly"):
             yield dict(kind="est", est=est, seed=seed)
 
 
@@ -473,12 +529,13 @@ def _est_setup(est, seed):
         r2 = Rng(f"c16-richer-{seed2}")
         return DenseFunctionalData(DenseArgvals({"input_dim_0": np.linspace(0, 1, 12)}), DenseValues(_dy(r2, (9, 12))))
 
-    if est in ("ufpca_cov", "ufpca_inpro", "ufpca_cov_big", "ufpca_inpro_big", "ufpca_pace"):
+    if est in ("ufpca_cov", "ufpca_inpro", "ufpca_cov_big", "ufpca_inpro_big", "ufpca_pace", "ufpca_cov_norm", "ufpca_inpro_norm"):
         data = make_subject("dense1d", seed)
-        method = "covariance" if est in ("ufpca_cov", "ufpca_cov_big", "ufpca_pace") else "inner-product"
+        method = "covariance" if est in ("ufpca_cov", "ufpca_cov_big", "ufpca_pace", "ufpca_cov_norm") else "inner-product"
         # `_big`: more components requested than the data can provide (7 grid points / 5 curves)
         ncomp = 10 if est.endswith("_big") else 2
-        mk = lambda: UFPCA(n_components=ncomp, method=method)  # noqa: E731
+        norm = est.endswith("_norm")
+        mk = lambda: UFPCA(n_components=ncomp, method=method, normalize=norm)  # noqa: E731
         steps = [("fit", lambda e, c: e.fit(c["data"])), ("transform", lambda e, c: e.transform(c["data"], method="NumInt")),
                  ("inverse_transform", lambda e, c: e.inverse_transform(c["scores"]))]
         if method == "inner-product":
@@ -500,20 +557,21 @@ def _est_setup(est, seed):
         steps = [("fit", lambda e, c: e.fit(c["data"])), ("transform", lambda e, c: e.transform(method="InnPro")),
                  ("inverse_transform", lambda e, c: e.inverse_transform(c["scores"]))]
         return mk, dict(data=data), steps, "UFPCA"
-    if est in ("mfpca_cov", "mfpca_inpro", "mfpca_pace"):
+    if est in ("mfpca_cov", "mfpca_inpro", "mfpca_pace", "mfpca_cov_norm", "mfpca_inpro_norm"):
         data = make_subject("multivariate", seed)
         exps = [{"method": "UFPCA", "n_components": 2}, {"method": "UFPCA", "n_components": 2}]
+        mnorm = est.endswith("_norm")
         if est == "mfpca_pace":
             mk = lambda: MFPCA(n_components=2, method="covariance", univariate_expansions=exps)  # noqa: E731
             steps = [("fit", lambda e, c: e.fit(c["data"], method_smoothing=None)), ("transform", lambda e, c: e.transform(c["data"], method="PACE")),
                      ("inverse_transform", lambda e, c: e.inverse_transform(c["scores"]))]
             return mk, dict(data=data, config=exps), steps, "MFPCA"
-        if est == "mfpca_cov":
-            mk = lambda: MFPCA(n_components=2, method="covariance", univariate_expansions=exps)  # noqa: E731
+        if est in ("mfpca_cov", "mfpca_cov_norm"):
+            mk = lambda: MFPCA(n_components=2, method="covariance", univariate_expansions=exps, normalize=mnorm)  # noqa: E731
             steps = [("fit", lambda e, c: e.fit(c["data"], method_smoothing=None)), ("transform", lambda e, c: e.transform(c["data"], method="NumInt")),
                      ("inverse_transform", lambda e, c: e.inverse_transform(c["scores"]))]
         else:
-            mk = lambda: MFPCA(n_components=2, method="inner-product")  # noqa: E731
+            mk = lambda: MFPCA(n_components=2, method="inner-product", normalize=mnorm)  # noqa: E731
             steps = [("fit", lambda e, c: e.fit(c["data"], method_smoothing=None)), ("transform", lambda e, c: e.transform(method="InnPro")),
                      ("inverse_transform", lambda e, c: e.inverse_transform(c["scores"]))]
         return mk, dict(data=data, config=exps, alt=dict(data=make_subject("multivariate", seed + 7))), steps, "MFPCA"
@@ -811,11 +869,27 @@ def _dedupe(viol):
 
 
 def run_impl(case):
+    global _FUNCTION_STATE0
+    if _FUNCTION_STATE0 is None:
+        import FDApy.preprocessing.dim_reduction.fcp_tpa  # noqa: F401
+        import FDApy.preprocessing.dim_reduction.mfpca  # noqa: F401
+        import FDApy.preprocessing.dim_reduction.ufpca  # noqa: F401
+        import FDApy.preprocessing.smoothing.local_polynomial  # noqa: F401
+        import FDApy.preprocessing.smoothing.psplines  # noqa: F401
+        import FDApy.representation.basis  # noqa: F401
+        import FDApy.representation.functional_data  # noqa: F401
+
+        _FUNCTION_STATE0 = function_state()
+    state_before = function_state()
     if case["kind"] == "single":
-        return _single(case)
-    if case["kind"] == "pair":
-        return _pair(case)
-    return _est(case)
+        out = _single(case)
+    elif case["kind"] == "pair":
+        out = _pair(case)
+    else:
+        out = _est(case)
+    entry = out.get("entry") or (f"{_class_of(case['subject']).__name__}.{case['b'][0]}" if case["kind"] == "pair" else f"{case.get('est')}")
+    out["viol"] = list(out.get("viol", [])) + _function_state_violation(entry, state_before)
+    return out
 
 
 # --------------------------------------------------------------------------
